@@ -779,6 +779,84 @@ fn scenarios(seed: u64, thorough: bool) -> Vec<Scenario> {
     v
 }
 
+
+/// C06 under concurrency: an honest and a tampered copy of the same message are opened at the same time through the
+/// same interface (same recipient key, same encapsulated key): the honest one must open, the tampered one must be
+/// rejected, under every schedule - whatever the two calls may share inside the library
+fn tamper_scenarios(seed: u64, thorough: bool) -> Vec<Scenario> {
+    let mut v = vec![];
+    let mut fixes = vec![(fix(ALPHA, Mode::Base, 61, seed), "alpha")];
+    if thorough {
+        fixes.push((fix(BETA, Mode::AuthPsk, 62, seed), "beta"));
+    }
+    for (fx, sname) in fixes {
+        for iface in 0..4usize {
+            let iname = ["open", "open_in_place_detached", "single_shot_open", "single_shot_open_in_place_detached"][iface];
+            for (tname, where_) in [("ciphertext bit", 0usize), ("tag bit", 1)] {
+                if !thorough && where_ == 1 && iface % 2 == 1 {
+                    continue;
+                }
+                let mk = |tampered: bool| -> Body {
+                    let fx = fx.clone();
+                    let alpha = sname == "alpha";
+                    Arc::new(move || {
+                        let (_, aad, ct) = &fx.msgs[1];
+                        let mut wire = ct.clone();
+                        if tampered {
+                            let i = if where_ == 0 { 2 } else { wire.len() - 3 };
+                            wire[i] ^= 0x10;
+                        }
+                        let ops = hpke_mc::suites::suite_ops(if alpha { ALPHA } else { BETA });
+                        // message #1 of the session: advance past message #0 first where a context is used
+                        let nt = 16;
+                        let res: Obs<Vec<u8>> = match iface {
+                            0 | 1 => match ops.setup_receiver(&fx.m, &fx.k.sk_r, &fx.enc, &fx.info) {
+                                Obs::Ok(mut r) => {
+                                    let _ = r.open(&fx.msgs[0].2, &fx.msgs[0].1);
+                                    if iface == 0 {
+                                        r.open(&wire, aad)
+                                    } else {
+                                        let mut b = wire[..wire.len() - nt].to_vec();
+                                        r.open_ip(&mut b, aad, &wire[wire.len() - nt..]).map(|_| b.clone())
+                                    }
+                                }
+                                Obs::Err(e) => Obs::Err(e),
+                                Obs::Pre(e) => Obs::Pre(e),
+                                Obs::Panic(p) => Obs::Panic(p),
+                            },
+                            _ => {
+                                // single-shot forms open message #0 of a session
+                                let (_, aad0, ct0) = &fx.msgs[0];
+                                let mut w0 = ct0.clone();
+                                if tampered {
+                                    let i = if where_ == 0 { 1 } else { w0.len() - 2 };
+                                    w0[i] ^= 0x04;
+                                }
+                                if iface == 2 {
+                                    ops.single_shot_open(&fx.m, &fx.k.sk_r, &fx.enc, &fx.info, &w0, aad0)
+                                } else {
+                                    let mut b = w0[..w0.len() - nt].to_vec();
+                                    ops.single_shot_open_ip(&fx.m, &fx.k.sk_r, &fx.enc, &fx.info, &mut b, aad0, &w0[w0.len() - nt..]).map(|_| b.clone())
+                                }
+                            }
+                        };
+                        enc_err(res, |v| v)
+                    })
+                };
+                let honest_pt = if iface < 2 { fx.msgs[1].0.clone() } else { fx.msgs[0].0.clone() };
+                let rejected = enc_err(Obs::<Vec<u8>>::Err(hpke::HpkeError::OpenError), |v| v);
+                v.push(Scenario {
+                    name: format!("T{}{}{} honest || tampered ({}) {} on {}", iface, where_, &sname[..1], tname, iname, sname),
+                    bodies: vec![mk(false), mk(true)],
+                    expect: vec![honest_pt, rejected],
+                    prelude: vec![],
+                });
+            }
+        }
+    }
+    v
+}
+
 #[derive(Clone, Debug, Serialize, Deserialize)]
 struct SchedCase {
     scenario: usize,
@@ -791,12 +869,14 @@ struct E3b {
     scen: Vec<Scenario>,
     bounds: Vec<usize>,
     stats: Mutex<Vec<serde_json::Value>>,
+    /// None = the C18 scenarios; Some(name) = another scenario family under its own part name
+    label: Option<&'static str>,
 }
 
 impl Part for E3b {
     type Case = SchedCase;
     fn name(&self) -> String {
-        "E3b-preemption-bounded-schedules".into()
+        self.label.unwrap_or("E3b-preemption-bounded-schedules").into()
     }
     fn rule(&self) -> String {
         "real OS threads run library code under a cooperative baton scheduler; the cfg(hpke_verif) scheduling points inside the library (KDF, AEAD, KEM, setup steps) and thread exit are the decision points; iterative context bounding: all schedules with at most B preemptions for B = 0, 1, 2 (a run replays a prefix of choices then keeps the running thread going; every later point whose preemption cost stays within the bound is branched); before each schedule a sequential prelude session (alternating) perturbs any process-wide state; oracle: every thread's outputs equal R1's sequential results; replaying a recorded choice sequence must reproduce trace and outputs exactly (checked on a sample), a divergence while replaying a prefix is a machinery error; a case = one scenario at one bound; states = schedules".into()
@@ -1563,6 +1643,7 @@ fn main() {
         only_part: None,
     };
     let mut sendsync_types: Option<u64> = None;
+    let mut emit_part: Option<PathBuf> = None;
     let mut i = 1;
     while i < a.len() {
         match a[i].as_str() {
@@ -1586,7 +1667,12 @@ fn main() {
                 sendsync_types = a[i + 1].parse().ok();
                 i += 1;
             }
+            "--emit-part" => {
+                emit_part = Some(PathBuf::from(&a[i + 1]));
+                i += 1;
+            }
             "C18" => {}
+            "C06" => cfg.prop = "C06".into(),
             other => {
                 eprintln!("unknown argument {}", other);
                 std::process::exit(2);
@@ -1608,6 +1694,40 @@ fn main() {
     hpke::verif::set_sched_hook(Some(hook));
     let t0 = Instant::now();
     let t = cfg.tier.thorough();
+    if cfg.prop == "C06" {
+        // C06's concurrent part: honest and tampered openers under every preemption-bounded schedule
+        let part = E3b { scen: tamper_scenarios(cfg.seed, t), bounds: if t { vec![0, 1, 2, 3] } else { vec![0, 1, 2] }, stats: Mutex::new(vec![]), label: Some("E3b-honest-vs-tampered-openers") };
+        if let Some(path) = &cfg.replay {
+            let v: serde_json::Value = serde_json::from_str(&std::fs::read_to_string(path).expect("cannot read replay file")).expect("bad replay file");
+            match replay_part(&part, &cfg, &v["case"]) {
+                Ok(o) => {
+                    println!("replay: {} comparisons, {} mismatches", o.transitions, o.mismatches.len());
+                    for m in &o.mismatches {
+                        println!("  MISMATCH {}", m.msg);
+                    }
+                    std::process::exit(if o.mismatches.is_empty() { 0 } else { 1 });
+                }
+                Err(e) => {
+                    eprintln!("{}", e);
+                    std::process::exit(2);
+                }
+            }
+        }
+        let mut c1 = cfg.clone();
+        c1.threads = 1;
+        let mut r = run_part(&part, &c1);
+        r.rule = "an honest and a tampered copy (one ciphertext bit / one tag bit) of the same message are opened AT THE SAME TIME by two real threads through the same interface (open, open_in_place_detached on contexts of one session; single_shot_open, single_shot_open_in_place_detached) with the same recipient key: under every schedule with at most B preemptions at the in-library scheduling points the honest copy opens to its plaintext and the tampered one fails with OpenError".into();
+        eprintln!("  part {}: cases {} schedules {} transitions {} violating {} ({:.1}s)", r.name, r.run, r.states, r.transitions, r.violations.len(), r.wall_s);
+        if !r.machinery_errors.is_empty() {
+            for e in &r.machinery_errors {
+                eprintln!("MACHINERY-ERROR {}", e);
+            }
+            std::process::exit(2);
+        }
+        let path = emit_part.expect("sched C06 needs --emit-part <file>");
+        std::fs::write(&path, serde_json::to_string(&vec![r]).unwrap()).expect("cannot write part file");
+        std::process::exit(0);
+    }
     let defs = script_defs(cfg.seed);
     // E3a sets: (scripts, ops, placements, prefix length)
     let mut split: Vec<Placement> = (0..8u8).map(Placement::Split).collect();
@@ -1621,7 +1741,7 @@ fn main() {
         sets.push((vec![0, 1, 2], 4, vec![Placement::Inline, Placement::Migrate], 3));
     }
     let e3a = E3a { defs, sets };
-    let e3b = E3b { scen: scenarios(cfg.seed, t), bounds: if t { vec![0, 1, 2, 3] } else { vec![0, 1, 2] }, stats: Mutex::new(vec![]) };
+    let e3b = E3b { scen: scenarios(cfg.seed, t), bounds: if t { vec![0, 1, 2, 3] } else { vec![0, 1, 2] }, stats: Mutex::new(vec![]), label: None };
     if let Some(path) = &cfg.replay {
         let v: serde_json::Value = serde_json::from_str(&std::fs::read_to_string(path).expect("cannot read replay file")).expect("bad replay file");
         let pairs = SuitePairs { modes: vec![] };
